@@ -13,8 +13,8 @@ out=$($bin -property all -repo $WT 2>&1)
 n=$(echo "$out" | grep -E "^ALARM ($pat) " | wc -l)
 echo "UNCHANGED alarms=$n"; echo "$out" | grep -E "^ALARM ($pat) " | cut -c1-300 | sed 's/^/    /'
 fa=0; tot=0
-for d in $(ls /verif/regress/refac/*/*.diff | sort -V); do
-  reset; name=$(basename $(dirname $d))/$(basename $d)
+for d in $(ls /verif/regress/refac*/*/*.diff | sort -V); do
+  reset; name=$(echo $d | sed "s,/verif/regress/,,")
   git -C $WT apply $d 2>/dev/null || { echo "REFAC $name does-not-apply"; continue; }
   out=$($bin -property all -repo $WT 2>&1)
   tot=$((tot+1))
